@@ -92,6 +92,33 @@ fn mutate_json(doc: &mut Value, part: &str, idx: usize, op: &str, arg: i64) -> b
                     doc["annotations"].as_array_mut().unwrap().swap(idx, idx + 1);
                     return true;
                 }
+                // every later annotation points at its predecessor: a chain of (relative) annotation selectors
+                "chain_offset" => {
+                    if idx + 1 >= n {
+                        return false;
+                    }
+                    for j in idx..n {
+                        if doc["annotations"][j]["@id"].as_str().is_none() {
+                            doc["annotations"][j]["@id"] = json!(format!("chain{}", j));
+                        }
+                    }
+                    for j in (idx + 1)..n {
+                        let prev = doc["annotations"][j - 1]["@id"].clone();
+                        let cur = |t: &str, v: i64| json!({"@type": t, "value": v});
+                        let off = match arg {
+                            0 => Some((cur("BeginAlignedCursor", 0), cur("BeginAlignedCursor", 1))),
+                            1 => Some((cur("BeginAlignedCursor", 0), cur("EndAlignedCursor", 0))),
+                            2 => Some((cur("EndAlignedCursor", -1), cur("EndAlignedCursor", 0))),
+                            3 => if (j - idx) % 2 == 0 { Some((cur("BeginAlignedCursor", 0), cur("EndAlignedCursor", 0))) } else { None },
+                            _ => None,
+                        };
+                        doc["annotations"][j]["target"] = match off {
+                            Some((b, e)) => json!({"@type": "AnnotationSelector", "annotation": prev, "offset": {"@type": "Offset", "begin": b, "end": e}}),
+                            None => json!({"@type": "AnnotationSelector", "annotation": prev}),
+                        };
+                    }
+                    return true;
+                }
                 _ => {}
             }
             let own_id = doc["annotations"][idx]["@id"].as_str().unwrap_or("nope").to_string();
